@@ -470,7 +470,7 @@ Proof.
   - rewrite ttype_eqb_refl. cbn [andb]. induction l as [|x r IHr]; [reflexivity|]. rewrite IH, IHr. reflexivity.
 Qed.
 
-Lemma fdesc_equiv_refl d : fdesc_equiv d d = true.
+Lemma fdesc_equivb_refl d : fdesc_equivb d d = true.
 Proof. apply weq_mod_refl. Qed.
 
 (* ---- through bytes and gzip ---- *)
@@ -500,10 +500,6 @@ Section Gzip.
     rewrite <- (app_nil_r (meta_marshal d)). apply meta_roundtrip; assumption.
   Qed.
 
-  Corollary marshal_roundtrip_mod_order d :
-    fdesc_ok d = true -> wfb (enc_fdesc d) = true ->
-    exists d', unmarshal unzip (marshal zip d) = Some d' /\ fdesc_equiv d' d = true.
-  Proof. intros Hok Hwf. exists d. split; [apply marshal_roundtrip; assumption|apply fdesc_equiv_refl]. Qed.
 End Gzip.
 
 (* ---- what GetFileDescriptor builds is such a descriptor ---- *)
@@ -1719,3 +1715,421 @@ Proof.
   intros Hf1 Hf2 Hf3 Hg1 Hg2 Hg3 E.
   rewrite (descriptor_from_facts f Hf1 Hf2 Hf3), (descriptor_from_facts g Hg1 Hg2 Hg3), E. reflexivity.
 Qed.
+
+(* ================================================================ 8. GetAllMethods *)
+
+(* the extends chain of a service, read off the AST: every link is either a service of the same
+   file (unqualified base) or a service of an included file (base written through the prefix) *)
+Inductive base_chain (P : program) : file -> service -> list (file * service) -> Prop :=
+| bc_end f s : sv_extends s = [] -> base_chain P f s [(f, s)]
+| bc_local f s t l :
+    sv_extends s <> [] -> no_byte dot (sv_extends s) = true ->
+    find_service f (sv_extends s) = Some t -> prog_file P (f_filename f) = Some f ->
+    base_chain P f t l -> base_chain P f s ((f, s) :: l)
+| bc_include f s i gname g n t l :
+    distinct_basenames f = true -> In i (f_includes f) -> in_ref i = Some gname -> gname <> [] ->
+    include_alias gname <> [] -> prog_file P gname = Some g -> n <> [] -> no_byte dot n = true ->
+    sv_extends s = include_alias gname ++ dot :: n -> find_service g n = Some t ->
+    prog_file P (f_filename f) = Some f ->
+    base_chain P g t l -> base_chain P f s ((f, s) :: l).
+
+Definition chain_methods (l : list (file * service)) : list methoddesc :=
+  flat_map (fun fs => map (method_desc (f_filename (fst fs))) (sv_functions (snd fs))) l.
+
+Lemma get_parent_end reg p s : sv_extends s = [] -> get_parent reg (service_desc p s) = None.
+Proof.
+  intro H. unfold get_parent, service_desc. cbn [svd_filepath svd_base]. rewrite H.
+  destruct (lookup_fd reg p); reflexivity.
+Qed.
+
+Lemma chain_file_in P f s l : base_chain P f s l -> sv_extends s <> [] -> prog_file P (f_filename f) = Some f.
+Proof. intros H Hne. destruct H; [contradiction|assumption|assumption]. Qed.
+
+Theorem all_methods_chain P : prog_ok P = true -> forall f s l, base_chain P f s l ->
+  forall fuel, (List.length l <= S fuel)%nat ->
+  all_methods fuel (registry_of P) (service_desc (f_filename f) s) = chain_methods l.
+Proof.
+  intros HP f s l H. induction H as [f s He|f s t l Hne Hnd Hfind Hfile Hc IH|f s i gname g n t l Hd Hin Href Hg Ha Hgf Hn Hnd Hext Hfind Hfile Hc IH];
+    intros fuel Hlen.
+  - unfold chain_methods. cbn [flat_map fst snd]. rewrite app_nil_r.
+    destruct fuel; cbn [all_methods]; unfold service_desc at 1; cbn [svd_methods];
+      [rewrite app_nil_r; reflexivity|]. rewrite get_parent_end by exact He. rewrite app_nil_r. reflexivity.
+  - cbn [List.length] in Hlen. destruct fuel as [|fuel].
+    { destruct Hc; cbn [List.length] in Hlen; lia. }
+    cbn [all_methods]. unfold chain_methods. cbn [flat_map fst snd]. fold (chain_methods l).
+    unfold service_desc at 1. cbn [svd_methods]. f_equal.
+    unfold get_parent. unfold service_desc at 1 2. cbn [svd_filepath svd_base].
+    rewrite (lookup_fd_registry P _ HP), Hfile. cbn [omap].
+    unfold get_service. rewrite (lookup_local _ _ _ mirrors_service P f _ Hne Hnd), Hfind. cbn [omap].
+    apply IH. lia.
+  - cbn [List.length] in Hlen. destruct fuel as [|fuel].
+    { destruct Hc; cbn [List.length] in Hlen; lia. }
+    cbn [all_methods]. unfold chain_methods. cbn [flat_map fst snd]. fold (chain_methods l).
+    unfold service_desc at 1. cbn [svd_methods]. f_equal.
+    unfold get_parent. unfold service_desc at 1 2. cbn [svd_filepath svd_base].
+    rewrite (lookup_fd_registry P _ HP), Hfile. cbn [omap]. rewrite Hext.
+    unfold get_service. rewrite (lookup_through_include _ _ _ mirrors_service P f i gname g n HP Hd Hin Href Hg Ha Hgf Hn Hnd), Hfind.
+    cbn [omap].
+    apply IH. lia.
+Qed.
+
+(* GetAllMethods = own methods ++ those of the base service ++ ... for a chain of any length, with
+   the fuel the model uses (one more than the number of registered services) whenever the chain is
+   not longer than that *)
+Corollary get_all_methods_chain P f s l :
+  prog_ok P = true -> base_chain P f s l -> (List.length l <= S (chain_fuel (registry_of P)))%nat ->
+  get_all_methods (registry_of P) (service_desc (f_filename f) s) = chain_methods l.
+Proof. intros HP Hc Hlen. unfold get_all_methods. apply (all_methods_chain P HP f s l Hc). exact Hlen. Qed.
+
+Corollary method_from_all_chain P f s l n :
+  prog_ok P = true -> base_chain P f s l -> (List.length l <= S (chain_fuel (registry_of P)))%nat ->
+  get_method_from_all (registry_of P) (service_desc (f_filename f) s) n = first_named md_name (chain_methods l) n.
+Proof. intros HP Hc Hlen. unfold get_method_from_all. rewrite (get_all_methods_chain P f s l HP Hc Hlen). reflexivity. Qed.
+
+(* ================================================================ 9. equivalence up to map-entry order *)
+
+(* ---- generic ---- *)
+Lemma optR_refl {A} (R : A -> A -> Prop) o : (forall x, o = Some x -> R x x) -> optR R o o.
+Proof. destruct o; intro H; constructor. apply H. reflexivity. Qed.
+Lemma optR_sym {A} (R : A -> A -> Prop) o o' : (forall x y, o = Some x -> R x y -> R y x) -> optR R o o' -> optR R o' o.
+Proof. intros H H0. inversion H0; subst; constructor. eapply H; [reflexivity|assumption]. Qed.
+Lemma optR_trans {A} (R : A -> A -> Prop) o o' o'' :
+  (forall x y z, o = Some x -> R x y -> R y z -> R x z) -> optR R o o' -> optR R o' o'' -> optR R o o''.
+Proof.
+  intros H H1 H2. inversion H1; subst; inversion H2; subst; constructor. eapply H; [reflexivity|eassumption|assumption].
+Qed.
+
+Lemma Forall2_refl_in {A} (R : A -> A -> Prop) l : Forall (fun x => R x x) l -> Forall2 R l l.
+Proof. induction 1; constructor; assumption. Qed.
+Lemma Forall2_sym_in {A} (R : A -> A -> Prop) l l' :
+  Forall (fun x => forall y, R x y -> R y x) l -> Forall2 R l l' -> Forall2 R l' l.
+Proof. intros H F. induction F; constructor; inversion H; subst; auto. Qed.
+Lemma Forall2_trans_in {A} (R : A -> A -> Prop) l : forall l' l'',
+  Forall (fun x => forall y z, R x y -> R y z -> R x z) l -> Forall2 R l l' -> Forall2 R l' l'' -> Forall2 R l l''.
+Proof.
+  induction l as [|x l IH]; intros l' l'' H F1 F2; inversion F1; subst; inversion F2; subst; constructor;
+    inversion H; subst; eauto.
+Qed.
+
+(* an element-wise relation commutes with a permutation *)
+Lemma Forall2_perm_r {A} (R : A -> A -> Prop) b c : Permutation b c ->
+  forall a, Forall2 R a b -> exists a', Permutation a a' /\ Forall2 R a' c.
+Proof.
+  induction 1 as [|x b c Hp IH|x y b|b c d H1 IH1 H2 IH2]; intros a F.
+  - inversion F; subst. exists []. split; constructor.
+  - inversion F as [|x0 ? a0 ? Hr F0]; subst. destruct (IH a0 F0) as (a' & Pa & Fa).
+    exists (x0 :: a'). split; [constructor; exact Pa|constructor; assumption].
+  - inversion F as [|y0 ? a1 ? Hy F1]; subst. inversion F1 as [|x0 ? a0 ? Hx F0]; subst.
+    exists (x0 :: y0 :: a0). split; [apply perm_swap|]. repeat constructor; assumption.
+  - destruct (IH1 a F) as (a1 & P1 & F1). destruct (IH2 a1 F1) as (a2 & P2 & F2').
+    exists a2. split; [eapply Permutation_trans; eassumption|exact F2'].
+Qed.
+
+Lemma Forall_perm {A} (P : A -> Prop) l l' : Permutation l l' -> Forall P l -> Forall P l'.
+Proof. intros Hp H. rewrite Forall_forall in *. intros x Hx. apply H. eapply Permutation_in; [apply Permutation_sym; exact Hp|exact Hx]. Qed.
+
+Lemma PermR_refl_in {A} (R : A -> A -> Prop) l : Forall (fun x => R x x) l -> PermR R l l.
+Proof. intro H. apply (PermR_intro R l l l); [apply Permutation_refl|apply Forall2_refl_in; exact H]. Qed.
+Lemma PermR_sym_in {A} (R : A -> A -> Prop) l l' :
+  Forall (fun x => forall y, R x y -> R y x) l -> PermR R l l' -> PermR R l' l.
+Proof.
+  intros H HP. inversion HP as [m l0 m' Hp F E1 E2]. subst m m'. pose proof (Forall_perm _ _ _ Hp H) as H0.
+  pose proof (Forall2_sym_in R l0 l' H0 F) as Fs.
+  destruct (Forall2_perm_r R l0 l (Permutation_sym Hp) l' Fs) as (a' & Pa & Fa).
+  exact (PermR_intro R l' a' l Pa Fa).
+Qed.
+Lemma PermR_trans_in {A} (R : A -> A -> Prop) l l' l'' :
+  Forall (fun x => forall y z, R x y -> R y z -> R x z) l -> PermR R l l' -> PermR R l' l'' -> PermR R l l''.
+Proof.
+  intros H HP H2. inversion HP as [m l0 m' Hp F E1 E2]. subst m m'. inversion H2 as [m l1 m'' Hp1 F1 E1 E2]. subst m m''.
+  destruct (Forall2_perm_r R l' l1 Hp1 l0 F) as (l0' & P0 & F0).
+  apply (PermR_intro R l l0' l''); [eapply Permutation_trans; eassumption|].
+  apply (Forall2_trans_in R l0' l1 l''); [|exact F0|exact F1].
+  apply (Forall_perm _ l); [eapply Permutation_trans; eassumption|exact H].
+Qed.
+
+Lemma extra_eq_refl e : extra_eq e e.
+Proof. apply optR_refl. intros. apply Permutation_refl. Qed.
+Lemma extra_eq_sym e e' : extra_eq e e' -> extra_eq e' e.
+Proof. apply optR_sym. intros. apply Permutation_sym. assumption. Qed.
+Lemma extra_eq_trans e e' e'' : extra_eq e e' -> extra_eq e' e'' -> extra_eq e e''.
+Proof. apply optR_trans. intros. eapply Permutation_trans; eassumption. Qed.
+
+(* ---- TypeDescriptor ---- *)
+Lemma tdesc_eq_refl : forall t, tdesc_eq t t.
+Proof.
+  induction t as [p n k v ex IHk IHv] using tdesc_ind'. cbn [tdesc_eq].
+  split; [reflexivity|]. split; [reflexivity|].
+  split; [destruct k; [apply IHk; reflexivity|exact I]|].
+  split; [destruct v; [apply IHv; reflexivity|exact I]|apply extra_eq_refl].
+Qed.
+Lemma tdesc_eq_sym : forall a b, tdesc_eq a b -> tdesc_eq b a.
+Proof.
+  induction a as [p n k v ex IHk IHv] using tdesc_ind'. intros [p' n' k' v' ex']. cbn [tdesc_eq].
+  intros (-> & -> & Hk & Hv & He). split; [reflexivity|]. split; [reflexivity|].
+  split; [|split; [|apply extra_eq_sym; exact He]].
+  - destruct k, k'; try contradiction; [apply (IHk _ eq_refl); exact Hk|exact I].
+  - destruct v, v'; try contradiction; [apply (IHv _ eq_refl); exact Hv|exact I].
+Qed.
+Lemma tdesc_eq_trans : forall a b c, tdesc_eq a b -> tdesc_eq b c -> tdesc_eq a c.
+Proof.
+  induction a as [p n k v ex IHk IHv] using tdesc_ind'. intros [p' n' k' v' ex'] [p'' n'' k'' v'' ex'']. cbn [tdesc_eq].
+  intros (-> & -> & Hk & Hv & He) (-> & -> & Hk' & Hv' & He'). split; [reflexivity|]. split; [reflexivity|].
+  split; [|split; [|eapply extra_eq_trans; eassumption]].
+  - destruct k, k', k''; try contradiction; [eapply (IHk _ eq_refl); eassumption|exact I].
+  - destruct v, v', v''; try contradiction; [eapply (IHv _ eq_refl); eassumption|exact I].
+Qed.
+
+(* ---- ConstValueDescriptor ---- *)
+Lemma pair_Forall_refl (R : cvdesc -> cvdesc -> Prop) m :
+  Forall (fun kv : cvdesc * cvdesc => R (fst kv) (fst kv) /\ R (snd kv) (snd kv)) m ->
+  Forall (fun x => pairR R x x) m.
+Proof. intro H. eapply Forall_impl; [|exact H]. intros [k v] [A B]. constructor; assumption. Qed.
+
+Lemma cvd_eq_refl : forall c, cvd_eq c c.
+Proof.
+  induction c as [ty dbl int str b l m id ex IHl IHm] using cvdesc_ind'. constructor; [| |apply extra_eq_refl].
+  - apply optR_refl. intros x ->. apply Forall2_refl_in. exact (IHl x eq_refl).
+  - apply optR_refl. intros x ->. apply PermR_refl_in. apply pair_Forall_refl. exact (IHm x eq_refl).
+Qed.
+
+Lemma cvd_eq_sym : forall a b, cvd_eq a b -> cvd_eq b a.
+Proof.
+  induction a as [ty dbl int str b l m id ex IHl IHm] using cvdesc_ind'. intros c H. inversion H as [? ? ? ? ? ? l' ? m' ? ? ex' Hl Hm He]; subst.
+  constructor; [| |apply extra_eq_sym; exact He].
+  - eapply optR_sym; [|exact Hl]. intros x y -> F. apply Forall2_sym_in; [exact (IHl x eq_refl)|exact F].
+  - eapply optR_sym; [|exact Hm]. intros x y -> F. apply PermR_sym_in; [|exact F].
+    eapply Forall_impl; [|exact (IHm x eq_refl)]. intros [k v] [A B] [k' v'] Hp. inversion Hp; subst. constructor; auto.
+Qed.
+
+Lemma cvd_eq_trans : forall a b c, cvd_eq a b -> cvd_eq b c -> cvd_eq a c.
+Proof.
+  induction a as [ty dbl int str b l m id ex IHl IHm] using cvdesc_ind'. intros c d H1 H2.
+  inversion H1 as [? ? ? ? ? ? l' ? m' ? ? ex' Hl Hm He]; subst.
+  inversion H2 as [? ? ? ? ? ? l'' ? m'' ? ? ex'' Hl' Hm' He']; subst.
+  constructor; [| |eapply extra_eq_trans; eassumption].
+  - eapply optR_trans; [|exact Hl|exact Hl']. intros x y z -> F1 F2. eapply Forall2_trans_in; [exact (IHl x eq_refl)|exact F1|exact F2].
+  - eapply optR_trans; [|exact Hm|exact Hm']. intros x y z -> F1 F2. eapply PermR_trans_in; [|exact F1|exact F2].
+    eapply Forall_impl; [|exact (IHm x eq_refl)]. intros [k v] [A B] [k' v'] [k'' v''] P1 P2.
+    inversion P1; subst. inversion P2; subst. constructor; eauto.
+Qed.
+
+(* ---- lists of equivalent things ---- *)
+Lemma Forall2_refl_all {A} (R : A -> A -> Prop) : (forall x, R x x) -> forall l, Forall2 R l l.
+Proof. intros H l. apply Forall2_refl_in. apply Forall_forall. intros; apply H. Qed.
+Lemma Forall2_sym_all {A} (R : A -> A -> Prop) : (forall x y, R x y -> R y x) -> forall l l', Forall2 R l l' -> Forall2 R l' l.
+Proof. intros H l l'. apply Forall2_sym_in. apply Forall_forall. intros; apply H; assumption. Qed.
+Lemma Forall2_trans_all {A} (R : A -> A -> Prop) :
+  (forall x y z, R x y -> R y z -> R x z) -> forall l l' l'', Forall2 R l l' -> Forall2 R l' l'' -> Forall2 R l l''.
+Proof. intros H l l' l''. apply Forall2_trans_in. apply Forall_forall. intros; eapply H; eassumption. Qed.
+
+Lemma optR_refl_all {A} (R : A -> A -> Prop) : (forall x, R x x) -> forall o, optR R o o.
+Proof. intros H o. apply optR_refl. intros; apply H. Qed.
+Lemma optR_sym_all {A} (R : A -> A -> Prop) : (forall x y, R x y -> R y x) -> forall o o', optR R o o' -> optR R o' o.
+Proof. intros H o o'. apply optR_sym. intros; apply H; assumption. Qed.
+Lemma optR_trans_all {A} (R : A -> A -> Prop) :
+  (forall x y z, R x y -> R y z -> R x z) -> forall o o' o'', optR R o o' -> optR R o' o'' -> optR R o o''.
+Proof. intros H o o' o''. apply optR_trans. intros; eapply H; eassumption. Qed.
+
+Lemma fielddesc_eq_refl a : fielddesc_eq a a.
+Proof. unfold fielddesc_eq. repeat split; eauto using Permutation_refl, tdesc_eq_refl, cvd_eq_refl, extra_eq_refl, (optR_refl_all _ cvd_eq_refl), (optR_refl_all _ tdesc_eq_refl). Qed.
+Lemma fielddesc_eq_sym a b : fielddesc_eq a b -> fielddesc_eq b a.
+Proof. unfold fielddesc_eq. intros (A1 & A2 & A3 & A4 & A5 & A6 & A7 & A8 & A9). repeat split; eauto using eq_sym, Permutation_sym, tdesc_eq_sym, cvd_eq_sym, extra_eq_sym, (optR_sym_all _ cvd_eq_sym), (optR_sym_all _ tdesc_eq_sym). Qed.
+Lemma fielddesc_eq_trans a b c : fielddesc_eq a b -> fielddesc_eq b c -> fielddesc_eq a c.
+Proof. unfold fielddesc_eq. intros (A1 & A2 & A3 & A4 & A5 & A6 & A7 & A8 & A9) (B1 & B2 & B3 & B4 & B5 & B6 & B7 & B8 & B9). repeat split; eauto using eq_trans, Permutation_trans, tdesc_eq_trans, cvd_eq_trans, extra_eq_trans, (optR_trans_all _ cvd_eq_trans), (optR_trans_all _ tdesc_eq_trans). Qed.
+
+Lemma structdesc_eq_refl a : structdesc_eq a a.
+Proof. unfold structdesc_eq. repeat split; eauto using Permutation_refl, tdesc_eq_refl, cvd_eq_refl, extra_eq_refl, (optR_refl_all _ cvd_eq_refl), (optR_refl_all _ tdesc_eq_refl), (Forall2_refl_all _ fielddesc_eq_refl). Qed.
+Lemma structdesc_eq_sym a b : structdesc_eq a b -> structdesc_eq b a.
+Proof. unfold structdesc_eq. intros (A1 & A2 & A3 & A4 & A5 & A6). repeat split; eauto using eq_sym, Permutation_sym, tdesc_eq_sym, cvd_eq_sym, extra_eq_sym, (optR_sym_all _ cvd_eq_sym), (optR_sym_all _ tdesc_eq_sym), (Forall2_sym_all _ fielddesc_eq_sym). Qed.
+Lemma structdesc_eq_trans a b c : structdesc_eq a b -> structdesc_eq b c -> structdesc_eq a c.
+Proof. unfold structdesc_eq. intros (A1 & A2 & A3 & A4 & A5 & A6) (B1 & B2 & B3 & B4 & B5 & B6). repeat split; eauto using eq_trans, Permutation_trans, tdesc_eq_trans, cvd_eq_trans, extra_eq_trans, (optR_trans_all _ cvd_eq_trans), (optR_trans_all _ tdesc_eq_trans), (Forall2_trans_all _ fielddesc_eq_trans). Qed.
+
+Lemma enumvaluedesc_eq_refl a : enumvaluedesc_eq a a.
+Proof. unfold enumvaluedesc_eq. repeat split; eauto using Permutation_refl, tdesc_eq_refl, cvd_eq_refl, extra_eq_refl, (optR_refl_all _ cvd_eq_refl), (optR_refl_all _ tdesc_eq_refl). Qed.
+Lemma enumvaluedesc_eq_sym a b : enumvaluedesc_eq a b -> enumvaluedesc_eq b a.
+Proof. unfold enumvaluedesc_eq. intros (A1 & A2 & A3 & A4 & A5 & A6). repeat split; eauto using eq_sym, Permutation_sym, tdesc_eq_sym, cvd_eq_sym, extra_eq_sym, (optR_sym_all _ cvd_eq_sym), (optR_sym_all _ tdesc_eq_sym). Qed.
+Lemma enumvaluedesc_eq_trans a b c : enumvaluedesc_eq a b -> enumvaluedesc_eq b c -> enumvaluedesc_eq a c.
+Proof. unfold enumvaluedesc_eq. intros (A1 & A2 & A3 & A4 & A5 & A6) (B1 & B2 & B3 & B4 & B5 & B6). repeat split; eauto using eq_trans, Permutation_trans, tdesc_eq_trans, cvd_eq_trans, extra_eq_trans, (optR_trans_all _ cvd_eq_trans), (optR_trans_all _ tdesc_eq_trans). Qed.
+
+Lemma enumdesc_eq_refl a : enumdesc_eq a a.
+Proof. unfold enumdesc_eq. repeat split; eauto using Permutation_refl, tdesc_eq_refl, cvd_eq_refl, extra_eq_refl, (optR_refl_all _ cvd_eq_refl), (optR_refl_all _ tdesc_eq_refl), (Forall2_refl_all _ enumvaluedesc_eq_refl). Qed.
+Lemma enumdesc_eq_sym a b : enumdesc_eq a b -> enumdesc_eq b a.
+Proof. unfold enumdesc_eq. intros (A1 & A2 & A3 & A4 & A5 & A6). repeat split; eauto using eq_sym, Permutation_sym, tdesc_eq_sym, cvd_eq_sym, extra_eq_sym, (optR_sym_all _ cvd_eq_sym), (optR_sym_all _ tdesc_eq_sym), (Forall2_sym_all _ enumvaluedesc_eq_sym). Qed.
+Lemma enumdesc_eq_trans a b c : enumdesc_eq a b -> enumdesc_eq b c -> enumdesc_eq a c.
+Proof. unfold enumdesc_eq. intros (A1 & A2 & A3 & A4 & A5 & A6) (B1 & B2 & B3 & B4 & B5 & B6). repeat split; eauto using eq_trans, Permutation_trans, tdesc_eq_trans, cvd_eq_trans, extra_eq_trans, (optR_trans_all _ cvd_eq_trans), (optR_trans_all _ tdesc_eq_trans), (Forall2_trans_all _ enumvaluedesc_eq_trans). Qed.
+
+Lemma typedefdesc_eq_refl a : typedefdesc_eq a a.
+Proof. unfold typedefdesc_eq. repeat split; eauto using Permutation_refl, tdesc_eq_refl, cvd_eq_refl, extra_eq_refl, (optR_refl_all _ cvd_eq_refl), (optR_refl_all _ tdesc_eq_refl). Qed.
+Lemma typedefdesc_eq_sym a b : typedefdesc_eq a b -> typedefdesc_eq b a.
+Proof. unfold typedefdesc_eq. intros (A1 & A2 & A3 & A4 & A5 & A6). repeat split; eauto using eq_sym, Permutation_sym, tdesc_eq_sym, cvd_eq_sym, extra_eq_sym, (optR_sym_all _ cvd_eq_sym), (optR_sym_all _ tdesc_eq_sym). Qed.
+Lemma typedefdesc_eq_trans a b c : typedefdesc_eq a b -> typedefdesc_eq b c -> typedefdesc_eq a c.
+Proof. unfold typedefdesc_eq. intros (A1 & A2 & A3 & A4 & A5 & A6) (B1 & B2 & B3 & B4 & B5 & B6). repeat split; eauto using eq_trans, Permutation_trans, tdesc_eq_trans, cvd_eq_trans, extra_eq_trans, (optR_trans_all _ cvd_eq_trans), (optR_trans_all _ tdesc_eq_trans). Qed.
+
+Lemma methoddesc_eq_refl a : methoddesc_eq a a.
+Proof. unfold methoddesc_eq. repeat split; eauto using Permutation_refl, tdesc_eq_refl, cvd_eq_refl, extra_eq_refl, (optR_refl_all _ cvd_eq_refl), (optR_refl_all _ tdesc_eq_refl), (Forall2_refl_all _ fielddesc_eq_refl). Qed.
+Lemma methoddesc_eq_sym a b : methoddesc_eq a b -> methoddesc_eq b a.
+Proof. unfold methoddesc_eq. intros (A1 & A2 & A3 & A4 & A5 & A6 & A7 & A8 & A9). repeat split; eauto using eq_sym, Permutation_sym, tdesc_eq_sym, cvd_eq_sym, extra_eq_sym, (optR_sym_all _ cvd_eq_sym), (optR_sym_all _ tdesc_eq_sym), (Forall2_sym_all _ fielddesc_eq_sym). Qed.
+Lemma methoddesc_eq_trans a b c : methoddesc_eq a b -> methoddesc_eq b c -> methoddesc_eq a c.
+Proof. unfold methoddesc_eq. intros (A1 & A2 & A3 & A4 & A5 & A6 & A7 & A8 & A9) (B1 & B2 & B3 & B4 & B5 & B6 & B7 & B8 & B9). repeat split; eauto using eq_trans, Permutation_trans, tdesc_eq_trans, cvd_eq_trans, extra_eq_trans, (optR_trans_all _ cvd_eq_trans), (optR_trans_all _ tdesc_eq_trans), (Forall2_trans_all _ fielddesc_eq_trans). Qed.
+
+Lemma servicedesc_eq_refl a : servicedesc_eq a a.
+Proof. unfold servicedesc_eq. repeat split; eauto using Permutation_refl, tdesc_eq_refl, cvd_eq_refl, extra_eq_refl, (optR_refl_all _ cvd_eq_refl), (optR_refl_all _ tdesc_eq_refl), (Forall2_refl_all _ methoddesc_eq_refl). Qed.
+Lemma servicedesc_eq_sym a b : servicedesc_eq a b -> servicedesc_eq b a.
+Proof. unfold servicedesc_eq. intros (A1 & A2 & A3 & A4 & A5 & A6 & A7). repeat split; eauto using eq_sym, Permutation_sym, tdesc_eq_sym, cvd_eq_sym, extra_eq_sym, (optR_sym_all _ cvd_eq_sym), (optR_sym_all _ tdesc_eq_sym), (Forall2_sym_all _ methoddesc_eq_sym). Qed.
+Lemma servicedesc_eq_trans a b c : servicedesc_eq a b -> servicedesc_eq b c -> servicedesc_eq a c.
+Proof. unfold servicedesc_eq. intros (A1 & A2 & A3 & A4 & A5 & A6 & A7) (B1 & B2 & B3 & B4 & B5 & B6 & B7). repeat split; eauto using eq_trans, Permutation_trans, tdesc_eq_trans, cvd_eq_trans, extra_eq_trans, (optR_trans_all _ cvd_eq_trans), (optR_trans_all _ tdesc_eq_trans), (Forall2_trans_all _ methoddesc_eq_trans). Qed.
+
+Lemma constdesc_eq_refl a : constdesc_eq a a.
+Proof. unfold constdesc_eq. repeat split; eauto using Permutation_refl, tdesc_eq_refl, cvd_eq_refl, extra_eq_refl, (optR_refl_all _ cvd_eq_refl), (optR_refl_all _ tdesc_eq_refl). Qed.
+Lemma constdesc_eq_sym a b : constdesc_eq a b -> constdesc_eq b a.
+Proof. unfold constdesc_eq. intros (A1 & A2 & A3 & A4 & A5 & A6 & A7). repeat split; eauto using eq_sym, Permutation_sym, tdesc_eq_sym, cvd_eq_sym, extra_eq_sym, (optR_sym_all _ cvd_eq_sym), (optR_sym_all _ tdesc_eq_sym). Qed.
+Lemma constdesc_eq_trans a b c : constdesc_eq a b -> constdesc_eq b c -> constdesc_eq a c.
+Proof. unfold constdesc_eq. intros (A1 & A2 & A3 & A4 & A5 & A6 & A7) (B1 & B2 & B3 & B4 & B5 & B6 & B7). repeat split; eauto using eq_trans, Permutation_trans, tdesc_eq_trans, cvd_eq_trans, extra_eq_trans, (optR_trans_all _ cvd_eq_trans), (optR_trans_all _ tdesc_eq_trans). Qed.
+
+(* fdesc_equiv is an equivalence relation *)
+Theorem fdesc_equiv_refl d : fdesc_equiv d d.
+Proof. unfold fdesc_equiv. repeat split; eauto using Permutation_refl, extra_eq_refl, (Forall2_refl_all _ servicedesc_eq_refl), (Forall2_refl_all _ structdesc_eq_refl), (Forall2_refl_all _ enumdesc_eq_refl), (Forall2_refl_all _ typedefdesc_eq_refl), (Forall2_refl_all _ constdesc_eq_refl). Qed.
+Theorem fdesc_equiv_sym a b : fdesc_equiv a b -> fdesc_equiv b a.
+Proof. unfold fdesc_equiv. intros (A1 & A2 & A3 & A4 & A5 & A6 & A7 & A8 & A9 & A10 & A11). repeat split; eauto using eq_sym, Permutation_sym, extra_eq_sym, (Forall2_sym_all _ servicedesc_eq_sym), (Forall2_sym_all _ structdesc_eq_sym), (Forall2_sym_all _ enumdesc_eq_sym), (Forall2_sym_all _ typedefdesc_eq_sym), (Forall2_sym_all _ constdesc_eq_sym). Qed.
+Theorem fdesc_equiv_trans a b c : fdesc_equiv a b -> fdesc_equiv b c -> fdesc_equiv a c.
+Proof. unfold fdesc_equiv. intros (A1 & A2 & A3 & A4 & A5 & A6 & A7 & A8 & A9 & A10 & A11) (B1 & B2 & B3 & B4 & B5 & B6 & B7 & B8 & B9 & B10 & B11). repeat split; eauto using eq_trans, Permutation_trans, extra_eq_trans, (Forall2_trans_all _ servicedesc_eq_trans), (Forall2_trans_all _ structdesc_eq_trans), (Forall2_trans_all _ enumdesc_eq_trans), (Forall2_trans_all _ typedefdesc_eq_trans), (Forall2_trans_all _ constdesc_eq_trans). Qed.
+
+(* ---- equivalent descriptors are in the domain of the round trip together ---- *)
+
+Lemma smap_ok_perm {A} (m m' : smap A) : Permutation m m' -> smap_ok m = true -> smap_ok m' = true.
+Proof.
+  unfold smap_ok. intros Hp H. apply nodupb_NoDup. apply nodupb_NoDup in H.
+  eapply Permutation_NoDup; [apply Permutation_map; exact Hp|exact H].
+Qed.
+
+Lemma extra_ok_eq e e' : extra_eq e e' -> extra_ok e = true -> extra_ok e' = true.
+Proof. intros H. inversion H; subst; cbn [extra_ok]; [auto|]. apply smap_ok_perm. assumption. Qed.
+
+Lemma tdesc_ok_eq : forall a b, tdesc_eq a b -> tdesc_ok a = true -> tdesc_ok b = true.
+Proof.
+  induction a as [p n k v ex IHk IHv] using tdesc_ind'. intros [p' n' k' v' ex']. cbn [tdesc_eq tdesc_ok].
+  intros (_ & _ & Hk & Hv & He) H. apply andb_true_iff in H as [H Hex]. apply andb_true_iff in H as [Hok Hov].
+  rewrite (extra_ok_eq _ _ He Hex), andb_true_r. apply andb_true_iff. split.
+  - destruct k, k'; try contradiction; [apply (IHk _ eq_refl _ Hk Hok)|reflexivity].
+  - destruct v, v'; try contradiction; [apply (IHv _ eq_refl _ Hv Hov)|reflexivity].
+Qed.
+
+Lemma cv_list_ok_iff l :
+  (fix go (l0 : list cvdesc) : bool := match l0 with [] => true | x :: r => cvdesc_ok x && go r end) l = true <->
+  Forall (fun c => cvdesc_ok c = true) l.
+Proof.
+  split; [apply cv_list_ok|]. induction 1 as [|x r Hx _ IH]; [reflexivity|]. rewrite Hx, IH. reflexivity.
+Qed.
+Lemma cv_map_ok_iff m :
+  (fix go (l : list (cvdesc * cvdesc)) : bool :=
+     match l with [] => true | (k, v) :: r => cvdesc_ok k && cvdesc_ok v && go r end) m = true <->
+  Forall (fun kv => cvdesc_ok (fst kv) = true /\ cvdesc_ok (snd kv) = true) m.
+Proof.
+  split; [apply cv_map_ok|]. induction 1 as [|[k v] r [Hk Hv] _ IH]; [reflexivity|]. cbn [fst snd] in *. rewrite Hk, Hv, IH. reflexivity.
+Qed.
+
+Lemma Forall2_Forall_transfer {A} (R : A -> A -> Prop) (Q : A -> Prop) l l' :
+  Forall (fun x => forall y, R x y -> Q x -> Q y) l -> Forall2 R l l' -> Forall Q l -> Forall Q l'.
+Proof.
+  intros H F. induction F as [|x y l l' Hr F IH]; intro HQ; constructor; inversion H; subst; inversion HQ; subst; auto.
+Qed.
+
+Lemma cvdesc_ok_eq : forall a b, cvd_eq a b -> cvdesc_ok a = true -> cvdesc_ok b = true.
+Proof.
+  induction a as [ty dbl int str b l m id ex IHl IHm] using cvdesc_ind'. intros c H Hok.
+  inversion H as [? ? ? ? ? ? l' ? m' ? ? ex' Hl Hm He]; subst. cbn [cvdesc_ok] in *.
+  apply andb_true_iff in Hok as [Hok Hex]. apply andb_true_iff in Hok as [Hok Hmo]. apply andb_true_iff in Hok as [Hty Hlo].
+  rewrite Hty, (extra_ok_eq _ _ He Hex), andb_true_r. cbn [andb]. apply andb_true_iff. split.
+  - inversion Hl as [|x y F]; subst; [reflexivity|]. apply cv_list_ok_iff. apply cv_list_ok_iff in Hlo.
+    exact (Forall2_Forall_transfer cvd_eq _ x y (IHl x eq_refl) F Hlo).
+  - inversion Hm as [|x y F]; subst; [reflexivity|]. apply cv_map_ok_iff. apply cv_map_ok_iff in Hmo.
+    inversion F as [q l0 q' Hp F2 E1 E2]. subst q q'.
+    pose proof (Forall_perm _ _ _ Hp Hmo) as H0. pose proof (Forall_perm _ _ _ Hp (IHm x eq_refl)) as IH0.
+    refine (Forall2_Forall_transfer (pairR cvd_eq) _ l0 y _ F2 H0).
+    eapply Forall_impl; [|exact IH0]. intros [k v] [A B] [k' v'] Hpr [Ok Ov]. inversion Hpr; subst. cbn [fst snd] in *. split; auto.
+Qed.
+
+Lemma forallb_Forall2 {A} (ok : A -> bool) (R : A -> A -> Prop) l l' :
+  (forall x y, R x y -> ok x = true -> ok y = true) -> Forall2 R l l' -> forallb ok l = true -> forallb ok l' = true.
+Proof.
+  intros H F. induction F as [|x y l l' Hr F IH]; [auto|]. cbn [forallb]. intro Hb. apply andb_true_iff in Hb as [Hx Hl].
+  rewrite (H x y Hr Hx), (IH Hl). reflexivity.
+Qed.
+
+Lemma fielddesc_ok_eq a b : fielddesc_eq a b -> fielddesc_ok a = true -> fielddesc_ok b = true.
+Proof.
+  unfold fielddesc_eq, fielddesc_ok. intros (_ & _ & A3 & _ & _ & A6 & A7 & _ & A9) H. bsplit.
+  rewrite (tdesc_ok_eq _ _ A3), (smap_ok_perm _ _ A7), (extra_ok_eq _ _ A9) by assumption. rewrite !andb_true_r.
+  inversion A6 as [|x y Hc E1 E2]; [reflexivity|]. rewrite <- E1 in *. eapply cvdesc_ok_eq; eassumption.
+Qed.
+Lemma structdesc_ok_eq a b : structdesc_eq a b -> structdesc_ok a = true -> structdesc_ok b = true.
+Proof.
+  unfold structdesc_eq, structdesc_ok. intros (_ & _ & A3 & A4 & _ & A6) H. bsplit.
+  rewrite (forallb_Forall2 _ _ _ _ fielddesc_ok_eq A3), (smap_ok_perm _ _ A4), (extra_ok_eq _ _ A6) by assumption. reflexivity.
+Qed.
+Lemma enumvaluedesc_ok_eq a b : enumvaluedesc_eq a b -> enumvaluedesc_ok a = true -> enumvaluedesc_ok b = true.
+Proof.
+  unfold enumvaluedesc_eq, enumvaluedesc_ok. intros (_ & _ & _ & A4 & _ & A6) H. bsplit.
+  rewrite (smap_ok_perm _ _ A4), (extra_ok_eq _ _ A6) by assumption. reflexivity.
+Qed.
+Lemma enumdesc_ok_eq a b : enumdesc_eq a b -> enumdesc_ok a = true -> enumdesc_ok b = true.
+Proof.
+  unfold enumdesc_eq, enumdesc_ok. intros (_ & _ & A3 & A4 & _ & A6) H. bsplit.
+  rewrite (forallb_Forall2 _ _ _ _ enumvaluedesc_ok_eq A3), (smap_ok_perm _ _ A4), (extra_ok_eq _ _ A6) by assumption. reflexivity.
+Qed.
+Lemma typedefdesc_ok_eq a b : typedefdesc_eq a b -> typedefdesc_ok a = true -> typedefdesc_ok b = true.
+Proof.
+  unfold typedefdesc_eq, typedefdesc_ok. intros (_ & A2 & _ & A4 & _ & A6) H. bsplit.
+  rewrite (tdesc_ok_eq _ _ A2), (smap_ok_perm _ _ A4), (extra_ok_eq _ _ A6) by assumption. reflexivity.
+Qed.
+Lemma methoddesc_ok_eq a b : methoddesc_eq a b -> methoddesc_ok a = true -> methoddesc_ok b = true.
+Proof.
+  unfold methoddesc_eq, methoddesc_ok. intros (_ & _ & A3 & A4 & A5 & _ & A7 & _ & A9) H. bsplit.
+  rewrite (forallb_Forall2 _ _ _ _ fielddesc_ok_eq A4), (forallb_Forall2 _ _ _ _ fielddesc_ok_eq A7),
+    (smap_ok_perm _ _ A5), (extra_ok_eq _ _ A9) by assumption. rewrite !andb_true_r.
+  inversion A3 as [|x y Hc E1 E2]; [reflexivity|]. rewrite <- E1 in *. eapply tdesc_ok_eq; eassumption.
+Qed.
+Lemma servicedesc_ok_eq a b : servicedesc_eq a b -> servicedesc_ok a = true -> servicedesc_ok b = true.
+Proof.
+  unfold servicedesc_eq, servicedesc_ok. intros (_ & _ & A3 & A4 & _ & A6 & _) H. bsplit.
+  rewrite (forallb_Forall2 _ _ _ _ methoddesc_ok_eq A3), (smap_ok_perm _ _ A4), (extra_ok_eq _ _ A6) by assumption. reflexivity.
+Qed.
+Lemma constdesc_ok_eq a b : constdesc_eq a b -> constdesc_ok a = true -> constdesc_ok b = true.
+Proof.
+  unfold constdesc_eq, constdesc_ok. intros (_ & _ & A3 & A4 & A5 & _ & A7) H. bsplit.
+  rewrite (tdesc_ok_eq _ _ A3), (cvdesc_ok_eq _ _ A4), (smap_ok_perm _ _ A5), (extra_ok_eq _ _ A7) by assumption. reflexivity.
+Qed.
+
+Theorem fdesc_ok_equiv a b : fdesc_equiv a b -> fdesc_ok a = true -> fdesc_ok b = true.
+Proof.
+  unfold fdesc_equiv, fdesc_ok. intros (_ & A2 & A3 & A4 & A5 & A6 & A7 & A8 & A9 & A10 & A11) H. bsplit.
+  rewrite (smap_ok_perm _ _ A2), (smap_ok_perm _ _ A3), (forallb_Forall2 _ _ _ _ servicedesc_ok_eq A4),
+    (forallb_Forall2 _ _ _ _ structdesc_ok_eq A5), (forallb_Forall2 _ _ _ _ structdesc_ok_eq A6),
+    (forallb_Forall2 _ _ _ _ enumdesc_ok_eq A7), (forallb_Forall2 _ _ _ _ typedefdesc_ok_eq A8),
+    (forallb_Forall2 _ _ _ _ structdesc_ok_eq A9), (forallb_Forall2 _ _ _ _ constdesc_ok_eq A10), (extra_ok_eq _ _ A11) by assumption.
+  reflexivity.
+Qed.
+
+(* decoding the encoding of ANY entry-order permutation of the maps of a descriptor yields a
+   descriptor equivalent to it *)
+Theorem wire_roundtrip_any_order d d' :
+  fdesc_ok d = true -> fdesc_equiv d d' ->
+  exists d'', dec_fdesc (enc_fdesc d') = Some d'' /\ fdesc_equiv d'' d.
+Proof.
+  intros Hok He. exists d'. split; [apply fdesc_rt; exact (fdesc_ok_equiv d d' He Hok)|apply fdesc_equiv_sym; exact He].
+Qed.
+
+Section GzipAnyOrder.
+  Variable zip : bytes -> bytes.
+  Variable unzip : bytes -> option bytes.
+  Hypothesis unzip_zip : forall x, unzip (zip x) = Some x.
+
+  Theorem marshal_roundtrip_any_order d d' :
+    fdesc_ok d = true -> fdesc_equiv d d' -> wfb (enc_fdesc d') = true ->
+    exists d'', unmarshal unzip (marshal zip d') = Some d'' /\ fdesc_equiv d'' d.
+  Proof.
+    intros Hok He Hwf. exists d'. split; [|apply fdesc_equiv_sym; exact He].
+    apply (marshal_roundtrip zip unzip unzip_zip); [exact (fdesc_ok_equiv d d' He Hok)|exact Hwf].
+  Qed.
+End GzipAnyOrder.
